@@ -113,3 +113,47 @@ Proof.
   rewrite (reader_refines (rc_of c) _ s e (Inv_FilesInv c _ Hc Hsc Hrule HI Hso)).
   apply runs_ext. intros k _. rewrite files_abs_lookup. apply Hlk.
 Qed.
+
+(* ---- the un-chunked continuous layout: what the reader returns is the canonical block list of what
+   the files expose; by refines_u that is every written sample at its index with its value and the
+   fill value in every other slot of every file that holds a written sample *)
+From DRF Require Import Proofs.WriterInvU.
+
+Lemma FWFu_file_ok c a : vcfg c -> 0 < c_sc c -> FWFu c a -> file_ok (rc_of c) (to_rfile c a).
+Proof.
+  intros (Hn & Hd & Hf & Hs) Hsc (Hi & Hl & (K0 & HK0 & EK0)).
+  unfold file_ok. cbn [findex fdata file_ms file_sub to_rfile rc_of fcad scad rn rd].
+  split; [rewrite Hi; discriminate|]. split; [rewrite Hi; reflexivity|]. split; [|split; [|split]].
+  - rewrite Hi. unfold dlen. cbn [fdata to_rfile]. apply rows_ok_cons. cbv zeta.
+    fold (zlen (f_data a)). rewrite Hl. unfold slot_lo. cbn [rn rd fcad rc_of].
+    unfold wlo, whi, file_start in *.
+    assert (Hcap : 1 <= cdiv ((f_ms a + c_fc c) * c_n c) (1000 * c_d c) - cdiv (f_ms a * c_n c) (1000 * c_d c)).
+    { rewrite EK0. apply (capacity_positive K0 (c_n c) (c_d c) (c_fc c)); assumption. }
+    repeat (split; [lia|]). exact I.
+  - rewrite EK0. unfold Fk, F_of, ms_of. apply Z.mul_nonneg_nonneg; [lia|].
+    apply Z.div_pos; [|lia]. apply Z.div_pos; [nia|lia].
+  - rewrite EK0. unfold Fk, F_of. rewrite Z.mul_comm. apply Z.mod_mul. lia.
+  - reflexivity.
+Qed.
+
+Theorem roundtrip_unchunked c ops s e : vcfg c -> 0 < c_sc c -> (c_sc c * 1000) mod c_fc c = 0 ->
+  c_chunk c = false -> c_cont c = true -> Forall (fun op => 0 <= fst op) ops ->
+  let st := fold_left (model_step c) ops init_state in
+  read ExactRational (rc_of c) (map (to_rfile c) (all_files st)) s e = runs (lookup_st st) s e /\
+  refines_u c st (fold_left (spec_step c) ops spec_init).
+Proof.
+  intros Hc Hsc Hrule Hch Hco Hops st.
+  pose proof (writer_refines_unchunked c ops Hc Hch Hco Hops) as HR. fold st in HR.
+  split; [|exact HR].
+  destruct HR as [[_ Hf Ho] _ _ _ _ Hso].
+  assert (HFI : FilesInv (rc_of c) (map (to_rfile c) (all_files st))).
+  { destruct Hc as (Hn & Hd & Hfc & Hs0). split; [|split].
+    - unfold cfg_ok. cbn [rn rd fcad scad rc_of]. auto.
+    - apply Forall_map. unfold all_files. apply Forall_app. split.
+      + eapply Forall_impl; [|exact Hf]. intros a (H & _). apply FWFu_file_ok; [repeat split; assumption|assumption|exact H].
+      + destruct (w_openf st) as [a|]; [|constructor]. constructor; [|constructor].
+        destruct Ho as (_ & H & _). apply FWFu_file_ok; [repeat split; assumption|assumption|exact H].
+    - apply ms_incr_sorted. exact Hso. }
+  rewrite (reader_refines (rc_of c) _ s e HFI).
+  apply runs_ext. intros k _. rewrite files_abs_lookup. reflexivity.
+Qed.
